@@ -38,7 +38,7 @@ func init() {
 				n = 360
 			}
 			return fw.Meta{N: n, Level: "exploration", Chunk: 1, CaseTimeoutS: 600, MinNT: 9, Workers: 6,
-				Rule:        "one case = one run of a workload in the race-detector build (case index mod 3: 0 = one SimpleDB handle, 8 goroutines of Get/Put/Delete on own and shared keys while size-triggered rotations, the background compactor (50us..1ms ticker) and forced rotations run; 1 = one SSTableReader with the default index loader (one table in three without a bloom filter file), 8..16 goroutines of Get/Contains/ScanRange/ScanStartingAt with every result compared with the precomputed sequential answer; 2 = one memory-mapped RecordIO reader, 8..16 goroutines of ReadNextAt/SeekNext at random offsets compared with the sequential answers), GOMAXPROCS from {2,4,16} by case. Oracles: zero race-detector reports touching go-sstables or the harness, no panic / abnormal exit, zero result mismatches. Every goroutine performs a fixed number of calls (no time boxing). Non-trivial: the run completed >= 1000 concurrent calls; distinct by (workload, seed, GOMAXPROCS) Database workload additions: in every other run callbacks at the named points flush.beforeAddReader and compaction.reflect.dbLocked make flusher and compactor wait a bounded number of spins for each other and leave together with 0..80 increments of skew; every other run calls Close after a third of the calls while the goroutines are still calling (only ErrAlreadyClosed is acceptable from then on, Close must return nil); two of the six shared keys hold 40..70 KiB values.",
+				Rule:        "one case = one run of a workload in the race-detector build (case index mod 3: 0 = one SimpleDB handle, 8 goroutines of Get/Put/Delete on own and shared keys while size-triggered rotations, the background compactor (50us..1ms ticker) and forced rotations run; 1 = one SSTableReader with the default index loader (one table in three without a bloom filter file), 8..16 goroutines of Get/Contains/ScanRange/ScanStartingAt with every result compared with the precomputed sequential answer; 2 = one memory-mapped RecordIO reader, 8..16 goroutines of ReadNextAt/SeekNext at random offsets compared with the sequential answers), GOMAXPROCS from {2,4,16} by case. Oracles: zero race-detector reports touching go-sstables or the harness, no panic / abnormal exit, zero result mismatches. Every goroutine performs a fixed number of calls (no time boxing). Non-trivial: the run completed >= 1000 concurrent calls; distinct by (workload, seed, GOMAXPROCS) Database workload additions: in every other run callbacks at the named points flush.beforeAddReader and compaction.reflect.dbLocked make flusher and compactor wait a bounded number of spins for each other and leave together with 0..80 increments of skew; every run is closed while the goroutines are still calling - after a third of the calls, or during a tail of Puts that goes on until Close turns them away (only ErrAlreadyClosed is acceptable from then on, Close must return nil); two of the six shared keys hold 40..70 KiB values.",
 				MinObs:      map[string]int64{"race_builds_run": 9, "concurrent_calls": 100000, "db_flushes_during_calls": 200, "db_compactions_during_calls": 20},
 				Assumptions: []string{"the Go race detector only reports races that happened in the observed execution", "SSTableReader.Scan is not part of the documented concurrent surface (the statement lists Get/Contains/range scans)"},
 			}
@@ -322,6 +322,7 @@ func c18DB(dir string, seed int64, perG int) c18Result {
 	var progress atomic.Int64
 	var closing atomic.Bool
 	var finished atomic.Int32
+	var tail atomic.Int32
 	for g := 0; g < 8; g++ {
 		wg.Add(1)
 		gs := r.Int63()
@@ -397,6 +398,29 @@ func c18DB(dir string, seed int64, perG int) c18Result {
 					break
 				}
 			}
+			// runs that were not closed early end with a tail of Puts that goes on until Close — called once every goroutine
+			// has reached its tail — turns them away: every database run has a Close with calls in flight
+			tail.Add(1)
+			for j := 0; !closeEarly; j++ {
+				cmu.Lock()
+				failed := firstErr != nil
+				cmu.Unlock()
+				if failed {
+					break
+				}
+				err := db.Put(fmt.Sprintf("g%d-tail", g), fmt.Sprintf("g%d-%d-%s", g, j, strings.Repeat(string(rune('a'+j%26)), 8)))
+				n++
+				if err != nil {
+					if !(closing.Load() && errors.Is(err, simpledb.ErrAlreadyClosed)) {
+						cmu.Lock()
+						if firstErr == nil {
+							firstErr = err
+						}
+						cmu.Unlock()
+					}
+					break
+				}
+			}
 			cmu.Lock()
 			calls += n
 			cmu.Unlock()
@@ -404,6 +428,14 @@ func c18DB(dir string, seed int64, perG int) c18Result {
 	}
 	var closeErr error
 	closedEarly := false
+	if !closeEarly {
+		for tail.Load() < 8 {
+			runtime.Gosched()
+		}
+		closing.Store(true)
+		closeErr = db.Close()
+		closedEarly = true
+	}
 	if closeEarly {
 		// a logical point of the run (a third of the calls), not a point in time
 		for progress.Load() < int64(8*perG/3) && finished.Load() < 8 {
@@ -419,11 +451,8 @@ func c18DB(dir string, seed int64, perG int) c18Result {
 	if firstErr != nil {
 		res.Err = "call failed: " + firstErr.Error()
 	}
-	if !closedEarly {
-		closeErr = db.Close()
-	} else {
-		res.ClosedEarly = 1
-	}
+	res.ClosedEarly = 1 // (every run is closed with calls in flight: a third of the way through, or during the tail of Puts)
+	_ = closedEarly
 	if closeErr != nil && res.Err == "" {
 		res.Err = "close: " + closeErr.Error()
 	}
